@@ -21,7 +21,7 @@ def parseAct (tok : String) : Option Act :=
     else none
 
 def parseActs (s : String) : Option (List Act) :=
-  (s.splitOn " ").filter (fun t => t ≠ "" && t ≠ "IA" && t ≠ "HP") |>.mapM parseAct      -- IA: the test leaves SIGALRM ignored; HP: it starts a helper process of its own (no effect on results)
+  (s.splitOn " ").filter (fun t => t ≠ "" && t ≠ "IA" && t ≠ "HP" && t ≠ "IP") |>.mapM parseAct      -- IA: the test leaves SIGALRM ignored; HP: it starts a helper process of its own (no effect on results)
 
 structure Frame where
   name : String
